@@ -1,6 +1,8 @@
 (* Proofs about Model/Linked.v (property C20). *)
 From GV Require Import Prelude.Base Model.Linked.
 Unset Implicit Arguments.
+Arguments hset : simpl never.
+Arguments hget : simpl never.
 
 (* ------------------------------------------------------------------ finite maps *)
 Lemma dget_dset_same {V} k (v : V) d : dget k (dset k v d) = Some v.
@@ -30,10 +32,10 @@ Proof.
 Qed.
 
 Lemma hget_hset_same {V} l (d : list V) h : hget l (hset l d h) = d.
-Proof. unfold hset. simpl. rewrite N.eqb_refl. reflexivity. Qed.
+Proof. unfold hset, hget. rewrite N.eqb_refl. reflexivity. Qed.
 
 Lemma hget_hset_other {V} l l' (d : list V) h : l' <> l -> hget l' (hset l d h) = hget l' h.
-Proof. intros H. unfold hset. simpl. destruct (N.eqb l' l) eqn:E; [apply N.eqb_eq in E; contradiction | reflexivity]. Qed.
+Proof. intros H. unfold hset. unfold hget at 1. fold (@hget V). destruct (N.eqb l' l) eqn:E; [apply N.eqb_eq in E; contradiction | reflexivity]. Qed.
 
 Lemma same_ent_spec w u e : same_ent w u e = true <-> (wsp e = w /\ uid e = u).
 Proof.
@@ -115,11 +117,873 @@ Proof.
       intros k0 wl [Hx|Hx]; [inversion Hx | apply (H7 k0 wl Hx)].
     + inversion E; subst d s1; clear E. repeat split; try assumption. simpl. f_equal. exact H5.
       intros k0 wl [Hx|Hx]; [inversion Hx | apply (H7 k0 wl Hx)].
-    + inversion E; subst d s1; clear E. simpl. repeat split; try assumption; try lia.
-      * f_equal; [rewrite hget_hset_same; reflexivity|].
-        rewrite <- H5. apply expand_ext. intros k0 wl Hin. apply hget_hset_other. apply H7 in Hin. lia.
-      * intros wl Hwl. rewrite hget_hset_other by lia. apply H6. exact Hwl.
-      * intros k0 wl [Hx|Hx]; [inversion Hx; subst; lia | apply H7 in Hx; lia].
+    + inversion E; subst d s1; clear E.
+      set (l := next s0).
+      change (ents s0 = ents s /\ heap s0 = heap s /\ file s0 = file s /\ (next s <= N.succ (next s0))%N
+              /\ expand (hset l dd (wheap s0)) ((k, VRef l) :: d0) = (k, FD dd) :: r
+              /\ (forall wl, (wl < next s)%N -> hget wl (hset l dd (wheap s0)) = hget wl (wheap s))
+              /\ refs_below (N.succ (next s0)) ((k, VRef l) :: d0)).
+      repeat split; try assumption; try lia.
+      * unfold expand. simpl map. f_equal.
+        -- simpl. rewrite hget_hset_same. reflexivity.
+        -- fold (expand (hset l dd (wheap s0)) d0). rewrite <- H5. apply expand_ext. intros k0 wl Hin.
+           apply hget_hset_other. apply H7 in Hin. unfold l. lia.
+      * intros wl Hwl. rewrite hget_hset_other by (unfold l; lia). apply H6. exact Hwl.
+      * intros k0 wl [Hx|Hx]; [inversion Hx; subst; unfold l; lia | apply H7 in Hx; lia].
     + inversion E; subst d s1; clear E. repeat split; try assumption. simpl. f_equal. exact H5.
       intros k0 wl [Hx|Hx]; [inversion Hx | apply (H7 k0 wl Hx)].
 Qed.
+
+(* ------------------------------------------------------------------ the invariant of a linked pair *)
+Definition ptr_ok (s : st) (l : N) : Prop := (l < next s)%N /\ refs_below (next s) (hget l (heap s)).
+
+Definition live_ok (s : st) (e : ent) (fd : fdict) : Prop :=
+  match md e with None => True | Some l => read s l = fd /\ ptr_ok s l end.
+
+(* what the metadata getter of e returns: the cached dict, else the stored JSON *)
+Definition sees (s : st) (e : ent) : option fdict :=
+  match md e with Some l => Some (read s l) | None => fget (wsp e) (uid e) (file s) end.
+
+(* entities u1 (some role r) and u2 (the other role) of workspace w are linked, consistent and stored *)
+Definition inv (s : st) (w : bool) (u1 u2 : N) : Prop :=
+  exists e1 e2 fd,
+    get_ent w u1 (ents s) = Some e1 /\ get_ent w u2 (ents s) = Some e2 /\ u1 <> u2 /\
+    rol e2 = other (rol e1) /\ is_dc (fam e1) = false /\ is_dc (fam e2) = false /\
+    fget w u1 (file s) = Some fd /\ fget w u2 (file s) = Some fd /\
+    dget (key_of (rol e1)) fd = Some (FU u1) /\ dget (key_of (rol e2)) fd = Some (FU u2) /\
+    live_ok s e1 fd /\ live_ok s e2 fd /\
+    (cache e1 = None \/ cache e1 = Some u2) /\ (cache e2 = None \/ cache e2 = Some u1).
+
+Lemma other_other r : other (other r) = r.
+Proof. destruct r; reflexivity. Qed.
+
+Lemma key_other r : key_of (other r) <> key_of r.
+Proof. destruct r; discriminate. Qed.
+
+Lemma inv_sym s w u1 u2 : inv s w u1 u2 -> inv s w u2 u1.
+Proof.
+  intros (e1 & e2 & fd & H1 & H2 & H3 & H4 & H5 & H6 & H7 & H8 & H9 & H10 & H11 & H12 & H13 & H14).
+  exists e2, e1, fd. repeat split; try assumption.
+  - intros E. apply H3. symmetry. exact E.
+  - rewrite H4, other_other. reflexivity.
+Qed.
+
+Lemma expand_val_FU h v u : expand_val h v = FU u -> v = VU u.
+Proof. destruct v; simpl; intros E; inversion E; reflexivity. Qed.
+
+Lemma read_names s l k u : dget k (read s l) = Some (FU u) -> dget k (hget l (heap s)) = Some (VU u).
+Proof.
+  unfold read. rewrite expand_dget. destruct (dget k (hget l (heap s))) as [v|]; simpl; [|discriminate].
+  intros E. inversion E as [E1]. apply expand_val_FU in E1. subst. reflexivity.
+Qed.
+
+(* ------------------------------------------------------------------ the metadata getter *)
+(* the getter of an entity that already has a cached or a stored dict: it ends with a cached dict that reads the same;
+   nothing else moves *)
+Lemma em_md_spec s e fd0 :
+  get_ent (wsp e) (uid e) (ents s) = Some e ->
+  sees s e = Some fd0 -> (forall l, md e = Some l -> ptr_ok s l) ->
+  forall l s1, em_md s e = (l, s1) ->
+  let e' := with_md e (Some l) in
+  get_ent (wsp e) (uid e) (ents s1) = Some e' /\ read s1 l = fd0 /\ ptr_ok s1 l
+  /\ (forall w u, (wsp e <> w \/ uid e <> u) -> get_ent w u (ents s1) = get_ent w u (ents s))
+  /\ file s1 = file s /\ (next s <= next s1)%N
+  /\ (forall l0, ptr_ok s l0 -> read s1 l0 = read s l0 /\ ptr_ok s1 l0)
+  /\ (forall l0, ptr_ok s l0 -> hget l0 (heap s1) = hget l0 (heap s))
+  /\ (md e = Some l \/ (next s <= l)%N).
+Proof.
+  intros Hget Hsees Hptr l s1 E. unfold em_md in E. unfold sees in Hsees.
+  destruct (md e) as [l0|] eqn:Emd.
+  - inversion E; subst. inversion Hsees; subst. cbv zeta.
+    assert (Ee : with_md e (Some l) = e) by (destruct e; simpl in *; subst; reflexivity).
+    rewrite Ee. split; [exact Hget|]. split; [reflexivity|]. split; [apply (Hptr l eq_refl)|].
+    split; [intros; reflexivity|]. split; [reflexivity|]. split; [lia|]. split; [intros l0 H; split; [reflexivity | exact H]|]. split; [intros; reflexivity | left; reflexivity].
+  - rewrite Hsees in E. destruct (load fd0 s) as [d s0] eqn:El.
+    destruct (load_spec _ _ _ _ El) as [H1 [H2 [H3 [H4 [H5 [H6 H7]]]]]].
+    inversion E; subst l s1; clear E. cbv zeta.
+    set (l := next s0).
+    change (get_ent (wsp e) (uid e) (put_ent (with_md e (Some l)) (ents s0)) = Some (with_md e (Some l))
+            /\ expand (wheap s0) (hget l (hset l d (heap s0))) = fd0
+            /\ ((l < N.succ (next s0))%N /\ refs_below (N.succ (next s0)) (hget l (hset l d (heap s0))))
+            /\ (forall w u, wsp e <> w \/ uid e <> u -> get_ent w u (put_ent (with_md e (Some l)) (ents s0)) = get_ent w u (ents s))
+            /\ file s0 = file s /\ (next s <= N.succ (next s0))%N
+            /\ (forall l0, ptr_ok s l0 ->
+                  expand (wheap s0) (hget l0 (hset l d (heap s0))) = read s l0
+                  /\ ((l0 < N.succ (next s0))%N /\ refs_below (N.succ (next s0)) (hget l0 (hset l d (heap s0)))))
+            /\ (forall l0, ptr_ok s l0 -> hget l0 (hset l d (heap s0)) = hget l0 (heap s))
+            /\ (None = Some l \/ (next s <= l)%N)).
+    rewrite hget_hset_same. repeat split; try assumption; try (unfold l; lia).
+    + apply (get_put_same (with_md e (Some l))).
+    + intros k wl Hin. apply H7 in Hin. lia.
+    + intros w u Hne. rewrite H1. apply (get_put_other (with_md e (Some l))). exact Hne.
+    + destruct H as [Hl0 Hr0]. rewrite hget_hset_other by (unfold l; lia). rewrite H2. unfold read.
+      apply expand_ext. intros k wl Hin. apply H6. apply (Hr0 k wl Hin).
+    + destruct H as [Hl0 _]. lia.
+    + destruct H as [Hl0 Hr0]. rewrite hget_hset_other by (unfold l; lia). rewrite H2.
+      intros k wl Hin. apply Hr0 in Hin. lia.
+    + intros l0 H. destruct H as [Hl0 Hr0]. rewrite hget_hset_other by (unfold l; lia). rewrite H2. reflexivity.
+    + right. unfold l. lia.
+Qed.
+
+(* ------------------------------------------------------------------ the metadata setter *)
+Lemma read_set_ents s l ents' : read (set_ents s ents') l = read s l.
+Proof. reflexivity. Qed.
+Lemma read_set_file s l f : read (set_file s f) l = read s l.
+Proof. reflexivity. Qed.
+
+Lemma with_md_fields e m : uid (with_md e m) = uid e /\ wsp (with_md e m) = wsp e /\ rol (with_md e m) = rol e
+                           /\ fam (with_md e m) = fam e /\ cache (with_md e m) = cache e /\ md (with_md e m) = m.
+Proof. repeat split. Qed.
+
+(* the setter called on e1 with the dict object l, when the partner e2 is resolvable: both entities end up holding l,
+   both stored copies equal what l reads, and the pair invariant holds provided l names both *)
+Lemma em_assign_inv s w u1 u2 e1 e2 l :
+  get_ent w u1 (ents s) = Some e1 -> get_ent w u2 (ents s) = Some e2 -> u1 <> u2 ->
+  rol e2 = other (rol e1) -> is_dc (fam e1) = false -> is_dc (fam e2) = false ->
+  ptr_ok s l ->
+  dget (key_of (rol e1)) (read s l) = Some (FU u1) -> dget (key_of (rol e2)) (read s l) = Some (FU u2) ->
+  (cache e1 = None \/ cache e1 = Some u2) -> (cache e2 = None \/ cache e2 = Some u1) ->
+  let s' := em_assign s e1 l in
+  inv s' w u1 u2 /\ heap s' = heap s /\ wheap s' = wheap s /\ next s' = next s
+  /\ fget w u1 (file s') = Some (read s l)
+  /\ (forall w0 u0, (w0 <> w \/ (u0 <> u1 /\ u0 <> u2)) -> get_ent w0 u0 (ents s') = get_ent w0 u0 (ents s)
+                                                        /\ fget w0 u0 (file s') = fget w0 u0 (file s)).
+Proof.
+  intros G1 G2 Hne Hrol Hf1 Hf2 Hptr Hk1 Hk2 Hc1 Hc2.
+  destruct (get_ent_some _ _ _ _ G1) as [W1 U1]. destruct (get_ent_some _ _ _ _ G2) as [W2 U2].
+  unfold em_assign. cbv zeta.
+  set (e1a := with_md e1 (Some l)).
+  set (s1 := store (set_ents s (put_ent e1a (ents s))) e1a l).
+  assert (G2' : get_ent w u2 (ents s1) = Some e2).
+  { unfold s1, store. simpl. rewrite <- G2. apply (get_put_other e1a). right. simpl. rewrite U1. exact Hne. }
+  assert (Hres : resolve s1 e1a l (key_of (other (rol e1))) = Some e2).
+  { unfold resolve. simpl rol. destruct (Nat.eqb (key_of (other (rol e1))) (key_of (rol e1))) eqn:Ek.
+    - apply Nat.eqb_eq in Ek. exfalso. apply (key_other (rol e1)). exact Ek.
+    - simpl cache. simpl wsp. rewrite W1. destruct Hc1 as [Hc|Hc]; rewrite Hc.
+      + rewrite <- Hrol. unfold s1, store. simpl heap. rewrite (read_names s l _ _ Hk2). exact G2'.
+      + exact G2'. }
+  rewrite Hres.
+  assert (Hns : same_ent (wsp e1) (uid e1) e2 = false).
+  { destruct (same_ent (wsp e1) (uid e1) e2) eqn:E; [|reflexivity]. apply same_ent_spec in E. destruct E as [_ E]. exfalso. apply Hne. congruence. }
+  rewrite Hns.
+  set (e1b := if cache e1a then e1a else with_cache e1a (Some (uid e2))).
+  set (e2a := with_md e2 (Some l)).
+  assert (Hf1b : uid e1b = u1 /\ wsp e1b = w /\ rol e1b = rol e1 /\ fam e1b = fam e1 /\ md e1b = Some l /\ cache e1b = Some u2).
+  { unfold e1b. simpl. destruct Hc1 as [Hc|Hc]; rewrite Hc; simpl; repeat split; try assumption; try congruence. }
+  destruct Hf1b as (A1 & A2 & A3 & A4 & A5 & A6).
+  match goal with |- inv ?X _ _ _ /\ _ => set (s' := X) end.
+  assert (Hents : ents s' = put_ent e2a (put_ent e1b (ents s1))) by reflexivity.
+  assert (Hheap : heap s' = heap s) by reflexivity.
+  assert (Hwheap : wheap s' = wheap s) by reflexivity.
+  assert (Hnext : next s' = next s) by reflexivity.
+  assert (Hread : read s' l = read s l) by reflexivity.
+  assert (Hfile : file s' = fput w u2 (read s l) (fput w u1 (read s l) (file s))).
+  { unfold s', store. simpl. unfold e2a, e1a. simpl. rewrite W1, U1, W2, U2. reflexivity. }
+  assert (G1' : get_ent w u1 (ents s') = Some e1b).
+  { rewrite Hents. rewrite (get_put_other e2a) by (right; simpl; rewrite U2; intros E; apply Hne; symmetry; exact E).
+    rewrite <- A1, <- A2. apply get_put_same. }
+  assert (G2'' : get_ent w u2 (ents s') = Some e2a).
+  { rewrite Hents. replace w with (wsp e2a) by exact W2. replace u2 with (uid e2a) by exact U2. apply get_put_same. }
+  split; [|split; [exact Hheap | split; [exact Hwheap | split; [exact Hnext | split]]]].
+  - exists e1b, e2a, (read s l).
+    split; [exact G1'|]. split; [exact G2''|]. split; [exact Hne|].
+    split; [simpl; rewrite A3; exact Hrol|]. split; [rewrite A4; exact Hf1|]. split; [exact Hf2|].
+    split; [rewrite Hfile; rewrite fget_fput_other by (right; exact Hne); apply fget_fput_same|].
+    split; [rewrite Hfile; apply fget_fput_same|].
+    split; [rewrite A3; exact Hk1|]. split; [exact Hk2|].
+    split; [unfold live_ok; rewrite A5; split; [exact Hread | exact Hptr]|].
+    split; [unfold live_ok; simpl; split; [exact Hread | exact Hptr]|].
+    split; [right; exact A6 | exact Hc2].
+  - rewrite Hfile. rewrite fget_fput_other by (right; exact Hne). apply fget_fput_same.
+  - intros w0 u0 Hother. split.
+    + rewrite Hents. rewrite (get_put_other e2a) by (simpl; rewrite W2, U2; destruct Hother as [H|[_ H]]; [left; intros E; apply H; symmetry; exact E | right; intros E; apply H; symmetry; exact E]).
+      rewrite (get_put_other e1b) by (rewrite A1, A2; destruct Hother as [H|[H _]]; [left; intros E; apply H; symmetry; exact E | right; intros E; apply H; symmetry; exact E]).
+      unfold s1, store. simpl. apply (get_put_other e1a). simpl. rewrite W1, U1.
+      destruct Hother as [H|[H _]]; [left; intros E; apply H; symmetry; exact E | right; intros E; apply H; symmetry; exact E].
+    + rewrite Hfile. rewrite fget_fput_other by (destruct Hother as [H|[_ H]]; [left; exact H | right; exact H]).
+      apply fget_fput_other. destruct Hother as [H|[H _]]; [left; exact H | right; exact H].
+Qed.
+
+(* ------------------------------------------------------------------ edit_em_metadata *)
+Definition val_ok (s : st) (v : val) : Prop := match v with VRef wl => (wl < next s)%N | _ => True end.
+
+Definition cache_ok (e : ent) (u : N) : Prop := cache e = None \/ cache e = Some u.
+
+Lemma refresh_get s e e' : get_ent (wsp e) (uid e) (ents s) = Some e' -> refresh s e = e'.
+Proof. intros H. unfold refresh. rewrite H. reflexivity. Qed.
+
+(* an edit through e1 of a key other than its own link key, when e1 can resolve e2 (cached, or named by the dict after
+   the edit): both entities end up with the same dict, stored for both, naming both *)
+Lemma em_edit_inv s w u1 u2 e1 e2 fd0 k v :
+  get_ent w u1 (ents s) = Some e1 -> get_ent w u2 (ents s) = Some e2 -> u1 <> u2 ->
+  rol e2 = other (rol e1) -> is_dc (fam e1) = false -> is_dc (fam e2) = false ->
+  sees s e1 = Some fd0 -> (forall l, md e1 = Some l -> ptr_ok s l) ->
+  dget (key_of (rol e1)) fd0 = Some (FU u1) ->
+  k <> key_of (rol e1) ->
+  ((k = key_of (rol e2) /\ v = VU u2) \/ (k <> key_of (rol e2) /\ dget (key_of (rol e2)) fd0 = Some (FU u2))) ->
+  val_ok s v -> cache_ok e1 u2 -> cache_ok e2 u1 ->
+  let s' := em_edit s e1 k v in
+  inv s' w u1 u2
+  /\ (exists fd', fget w u1 (file s') = Some fd' /\ dget k fd' = Some (expand_val (wheap s') v)
+                  /\ forall j, j <> k -> dget j fd' = dget j fd0)
+  /\ (next s <= next s')%N
+  /\ (forall w0 u0, (w0 <> w \/ (u0 <> u1 /\ u0 <> u2)) -> get_ent w0 u0 (ents s') = get_ent w0 u0 (ents s)
+                                                        /\ fget w0 u0 (file s') = fget w0 u0 (file s))
+  /\ (forall l0, ptr_ok s l0 -> (forall l, md e1 = Some l -> l0 <> l) -> read s' l0 = read s l0 /\ ptr_ok s' l0).
+Proof.
+  intros G1 G2 Hne Hrol Hf1 Hf2 Hsees Hptr Hown Hk Hother Hv Hc1 Hc2.
+  destruct (get_ent_some _ _ _ _ G1) as [W1 U1]. destruct (get_ent_some _ _ _ _ G2) as [W2 U2].
+  unfold em_edit. cbv zeta. destruct (em_md s e1) as [l s1] eqn:Em.
+  assert (G1s : get_ent (wsp e1) (uid e1) (ents s) = Some e1) by (rewrite W1, U1; exact G1).
+  destruct (em_md_spec s e1 fd0 G1s Hsees Hptr l s1 Em) as (A1 & A2 & A3 & A4 & A5 & A6 & A7 & A8 & A9).
+  set (e1' := with_md e1 (Some l)) in *.
+  set (d := hget l (heap s1)).
+  set (s2 := set_heap s1 (hset l (dset k v d) (heap s1))).
+  assert (Hr : refresh s2 e1 = e1') by (apply refresh_get; exact A1).
+  rewrite Hr.
+  assert (G1' : get_ent w u1 (ents s2) = Some e1') by (rewrite <- W1, <- U1; exact A1).
+  assert (G2' : get_ent w u2 (ents s2) = Some e2).
+  { change (get_ent w u2 (ents s1) = Some e2). rewrite A4; [exact G2|]. right. rewrite U1. exact Hne. }
+  assert (Hread2 : read s2 l = expand (wheap s1) (dset k v d)).
+  { unfold read, s2. simpl. rewrite hget_hset_same. reflexivity. }
+  assert (Hptr2 : ptr_ok s2 l).
+  { destruct A3 as [Hl Hrefs]. split; [exact Hl|]. unfold s2. simpl. rewrite hget_hset_same.
+    intros k0 wl Hin. apply dset_in in Hin. destruct Hin as [[_ Ev]|Hin].
+    - subst v. simpl in Hv. simpl. lia.
+    - apply (Hrefs k0 wl Hin). }
+  assert (Hn1 : dget (key_of (rol e1')) (read s2 l) = Some (FU u1)).
+  { rewrite Hread2, expand_dget, dget_dset_other by (intros E; apply Hk; symmetry; exact E).
+    rewrite <- expand_dget. fold d. change (dget (key_of (rol e1)) (read s1 l) = Some (FU u1)). rewrite A2. exact Hown. }
+  assert (Hn2 : dget (key_of (rol e2)) (read s2 l) = Some (FU u2)).
+  { rewrite Hread2, expand_dget. destruct Hother as [[Ek Ev]|[Ek Hd]].
+    - subst k v. rewrite dget_dset_same. reflexivity.
+    - rewrite dget_dset_other by (intros E; apply Ek; symmetry; exact E). rewrite <- expand_dget.
+      change (dget (key_of (rol e2)) (read s1 l) = Some (FU u2)). rewrite A2. exact Hd. }
+  destruct (em_assign_inv s2 w u1 u2 e1' e2 l G1' G2' Hne Hrol Hf1 Hf2 Hptr2 Hn1 Hn2 Hc1 Hc2) as (B1 & B2 & B3 & B4 & B5 & B6).
+  split; [exact B1|]. split; [|split; [|split]].
+  - exists (read s2 l). split; [exact B5|]. split.
+    + rewrite Hread2, expand_dget, dget_dset_same. rewrite B3. reflexivity.
+    + intros j Hj. rewrite Hread2, expand_dget, dget_dset_other by exact Hj. rewrite <- expand_dget.
+      change (dget j (read s1 l) = dget j fd0). rewrite A2. reflexivity.
+  - rewrite B4. exact A6.
+  - intros w0 u0 Hoth. destruct (B6 w0 u0 Hoth) as [C1 C2]. split.
+    + rewrite C1. change (get_ent w0 u0 (ents s1) = get_ent w0 u0 (ents s)). apply A4.
+      rewrite W1, U1. destruct Hoth as [H|[H _]]; [left; intros E; apply H; symmetry; exact E | right; intros E; apply H; symmetry; exact E].
+    + rewrite C2. change (fget w0 u0 (file s1) = fget w0 u0 (file s)). rewrite A5. reflexivity.
+  - intros l0 Hl0 Hdiff. destruct (A7 l0 Hl0) as [R1 R2].
+    assert (Hl0l : l0 <> l).
+    { unfold em_md in Em. destruct (md e1) as [lm|] eqn:Emd.
+      - inversion Em; subst. apply (Hdiff l eq_refl).
+      - unfold sees in Hsees. rewrite Emd in Hsees. rewrite Hsees in Em. destruct (load fd0 s) as [dd s0] eqn:El.
+        inversion Em; subst. destruct (load_spec _ _ _ _ El) as (_ & _ & _ & Hle & _). destruct Hl0 as [Hl0 _]. lia. }
+    split.
+    + unfold read. rewrite B2, B3. unfold s2. simpl. rewrite hget_hset_other by exact Hl0l. exact R1.
+    + destruct R2 as [R2a R2b]. split; [rewrite B4; exact R2a|]. rewrite B2, B4. unfold s2. simpl.
+      rewrite hget_hset_other by exact Hl0l. exact R2b.
+Qed.
+
+(* ------------------------------------------------------------------ linking from either side *)
+(* an initialised, unlinked survey entity: it reads (cached or stored) a dict carrying its own uid under its own key *)
+Definition solo (s : st) (e : ent) : Prop :=
+  get_ent (wsp e) (uid e) (ents s) = Some e /\ is_dc (fam e) = false /\ cache e = None
+  /\ exists fd, sees s e = Some fd /\ (forall l, md e = Some l -> ptr_ok s l) /\ dget (key_of (rol e)) fd = Some (FU (uid e)).
+
+Lemma em_link_inv s w u1 u2 e1 e2 fd0 :
+  get_ent w u1 (ents s) = Some e1 -> get_ent w u2 (ents s) = Some e2 -> u1 <> u2 ->
+  rol e2 = other (rol e1) -> is_dc (fam e1) = false -> is_dc (fam e2) = false ->
+  sees s e1 = Some fd0 -> (forall l, md e1 = Some l -> ptr_ok s l) ->
+  dget (key_of (rol e1)) fd0 = Some (FU u1) -> cache_ok e2 u1 ->
+  let s' := em_link s e1 e2 in
+  inv s' w u1 u2 /\ (next s <= next s')%N
+  /\ (forall w0 u0, (w0 <> w \/ (u0 <> u1 /\ u0 <> u2)) -> get_ent w0 u0 (ents s') = get_ent w0 u0 (ents s)
+                                                        /\ fget w0 u0 (file s') = fget w0 u0 (file s))
+  /\ (forall l0, ptr_ok s l0 -> (forall l, md e1 = Some l -> l0 <> l) -> read s' l0 = read s l0 /\ ptr_ok s' l0).
+Proof.
+  intros G1 G2 Hne Hrol Hf1 Hf2 Hsees Hptr Hown Hc2.
+  destruct (get_ent_some _ _ _ _ G1) as [W1 U1]. destruct (get_ent_some _ _ _ _ G2) as [W2 U2].
+  unfold em_link. cbv zeta. set (e1c := with_cache e1 (Some (uid e2))). set (s1 := set_ents s (put_ent e1c (ents s))).
+  assert (G1' : get_ent w u1 (ents s1) = Some e1c).
+  { unfold s1. simpl. rewrite <- W1, <- U1. apply (get_put_same e1c). }
+  assert (G2' : get_ent w u2 (ents s1) = Some e2).
+  { unfold s1. simpl. rewrite <- G2. apply (get_put_other e1c). right. simpl. rewrite U1. exact Hne. }
+  destruct (em_edit_inv s1 w u1 u2 e1c e2 fd0 (key_of (rol e2)) (VU (uid e2)) G1' G2' Hne Hrol Hf1 Hf2) as (B1 & B2 & B3 & B4 & B5); try assumption.
+  - intros E. simpl in E. rewrite Hrol in E. apply (key_other (rol e1)). exact E.
+  - left. split; [reflexivity | rewrite U2; reflexivity].
+  - exact I.
+  - right. simpl. rewrite U2. reflexivity.
+  - split; [exact B1|]. split; [exact B3|]. split.
+    + intros w0 u0 Hoth. destruct (B4 w0 u0 Hoth) as [C1 C2]. split; [|exact C2]. rewrite C1. unfold s1. simpl.
+      apply (get_put_other e1c). simpl. rewrite W1, U1.
+      destruct Hoth as [H|[H _]]; [left; intros E; apply H; symmetry; exact E | right; intros E; apply H; symmetry; exact E].
+    + intros l0 Hl0 Hd. apply (B5 l0 Hl0 Hd).
+Qed.
+
+Theorem link_symmetric s ea eb :
+  solo s ea -> solo s eb -> wsp eb = wsp ea -> uid ea <> uid eb -> rol eb = other (rol ea) ->
+  inv (em_link s ea eb) (wsp ea) (uid ea) (uid eb) /\ inv (em_link s eb ea) (wsp ea) (uid ea) (uid eb).
+Proof.
+  intros (Ga & Fa & Ca & fda & Sa & Pa & Ka) (Gb & Fb & Cb & fdb & Sb & Pb & Kb) Hw Hne Hrol. split.
+  - refine (proj1 (em_link_inv s (wsp ea) (uid ea) (uid eb) ea eb fda _ _ _ _ _ _ _ _ _ _)); try assumption.
+    + rewrite <- Hw. exact Gb.
+    + left. exact Cb.
+  - apply inv_sym. rewrite <- Hw.
+    refine (proj1 (em_link_inv s (wsp eb) (uid eb) (uid ea) eb ea fdb _ _ _ _ _ _ _ _ _ _)); try assumption.
+    + rewrite Hw. exact Ga.
+    + intros E. apply Hne. symmetry. exact E.
+    + rewrite Hrol, other_other. reflexivity.
+    + left. exact Ca.
+Qed.
+
+(* ------------------------------------------------------------------ edits, waveform, re-open preserve the invariant *)
+Lemma inv_sees s w u1 u2 : inv s w u1 u2 ->
+  exists e1 e2 fd, get_ent w u1 (ents s) = Some e1 /\ get_ent w u2 (ents s) = Some e2 /\ u1 <> u2
+    /\ rol e2 = other (rol e1) /\ is_dc (fam e1) = false /\ is_dc (fam e2) = false
+    /\ sees s e1 = Some fd /\ (forall l, md e1 = Some l -> ptr_ok s l)
+    /\ dget (key_of (rol e1)) fd = Some (FU u1) /\ dget (key_of (rol e2)) fd = Some (FU u2)
+    /\ cache_ok e1 u2 /\ cache_ok e2 u1.
+Proof.
+  intros (e1 & e2 & fd & H1 & H2 & H3 & H4 & H5 & H6 & H7 & H8 & H9 & H10 & H11 & H12 & H13 & H14).
+  destruct (get_ent_some _ _ _ _ H1) as [W1 U1].
+  exists e1, e2, fd.
+  split; [exact H1|]. split; [exact H2|]. split; [exact H3|]. split; [exact H4|]. split; [exact H5|]. split; [exact H6|].
+  split; [unfold sees; unfold live_ok in H11; destruct (md e1) as [l0|]; [destruct H11 as [R _]; rewrite R; reflexivity | rewrite W1, U1; exact H7]|].
+  split; [intros l0 El; unfold live_ok in H11; rewrite El in H11; apply H11|].
+  split; [exact H9|]. split; [exact H10|]. split; [exact H13 | exact H14].
+Qed.
+
+Lemma edit_first_inv s w u1 u2 e1 k z :
+  inv s w u1 u2 -> get_ent w u1 (ents s) = Some e1 -> k <> KA -> k <> KB ->
+  inv (em_edit s e1 k (VZ z)) w u1 u2.
+Proof.
+  intros Hinv G1 Hka Hkb. destruct (inv_sees _ _ _ _ Hinv) as (e1' & e2 & fd & H1 & H2 & H3 & H4 & H5 & H6 & H7 & H8 & H9 & H10 & H11 & H12).
+  assert (e1' = e1) by congruence. subst e1'.
+  assert (Hk : forall r, k <> key_of r) by (intros [|]; assumption).
+  apply (em_edit_inv s w u1 u2 e1 e2 fd k (VZ z) H1 H2 H3 H4 H5 H6 H7 H8 H9 (Hk _)); try assumption.
+  - right. split; [apply Hk | exact H10].
+  - exact I.
+Qed.
+
+Lemma link_first_inv s w u1 u2 e1 e2 :
+  inv s w u1 u2 -> get_ent w u1 (ents s) = Some e1 -> get_ent w u2 (ents s) = Some e2 -> inv (em_link s e1 e2) w u1 u2.
+Proof.
+  intros Hinv G1 G2. destruct (inv_sees _ _ _ _ Hinv) as (e1' & e2' & fd & H1 & H2 & H3 & H4 & H5 & H6 & H7 & H8 & H9 & H10 & H11 & H12).
+  assert (e1' = e1) by congruence. assert (e2' = e2) by congruence. subst e1' e2'.
+  apply (em_link_inv s w u1 u2 e1 e2 fd); assumption.
+Qed.
+
+Lemma dget_in {V} k (v : V) d : dget k d = Some v -> In (k, v) d.
+Proof.
+  induction d as [|[k' v'] r IH]; simpl; [discriminate|]. destruct (Nat.eqb k k') eqn:E.
+  - intros H. inversion H; subst. apply Nat.eqb_eq in E. subst. left. reflexivity.
+  - intros H. right. apply IH. exact H.
+Qed.
+
+Lemma names_wheap_indep s s' l k u : heap s' = heap s -> dget k (read s l) = Some (FU u) -> dget k (read s' l) = Some (FU u).
+Proof.
+  intros Hh H. apply read_names in H. unfold read. rewrite Hh, expand_dget, H. reflexivity.
+Qed.
+
+Lemma wave_first_inv s w u1 u2 e1 z :
+  inv s w u1 u2 -> get_ent w u1 (ents s) = Some e1 -> inv (em_wave s e1 z) w u1 u2.
+Proof.
+  intros Hinv G1. destruct (inv_sees _ _ _ _ Hinv) as (e1' & e2 & fd & H1 & H2 & H3 & H4 & H5 & H6 & H7 & H8 & H9 & H10 & H11 & H12).
+  assert (e1' = e1) by congruence. subst e1'.
+  destruct (get_ent_some _ _ _ _ H1) as [W1 U1].
+  unfold em_wave. destruct (em_md s e1) as [l s1] eqn:Em.
+  assert (G1s : get_ent (wsp e1) (uid e1) (ents s) = Some e1) by (rewrite W1, U1; exact H1).
+  destruct (em_md_spec s e1 fd G1s H7 H8 l s1 Em) as (A1 & A2 & A3 & A4 & A5 & A6 & A7 & A8 & A9).
+  set (e1' := with_md e1 (Some l)) in *.
+  assert (G2' : get_ent w u2 (ents s1) = Some e2) by (rewrite A4; [exact H2 | right; rewrite U1; exact H3]).
+  assert (N1 : dget (key_of (rol e1)) (read s1 l) = Some (FU u1)) by (rewrite A2; exact H9).
+  assert (N2 : dget (key_of (rol e2)) (read s1 l) = Some (FU u2)) by (rewrite A2; exact H10).
+  assert (Hkw : forall r, KW <> key_of r) by (intros [|]; discriminate).
+  destruct (dget KW (hget l (heap s1))) as [[u|zz|wl|]|] eqn:Ew.
+  all: try (
+    set (wl := next s1);
+    set (s2 := bump (set_wheap s1 (hset wl [(0, 0%Z); (1, z)] (wheap s1))));
+    assert (Hr : refresh s2 e1 = e1') by (apply refresh_get; exact A1); rewrite Hr;
+    apply (em_edit_inv s2 w u1 u2 e1' e2 (read s2 l) KW (VRef wl));
+    [ rewrite <- W1, <- U1; exact A1 | exact G2' | exact H3 | exact H4 | exact H5 | exact H6 | reflexivity
+    | intros l' El; inversion El; subst l'; destruct A3 as [Ha Hb]; split; [simpl; lia | intros k0 w0 Hin; apply Hb in Hin; simpl; lia]
+    | apply (names_wheap_indep s1 s2 l _ _ eq_refl N1) | apply Hkw
+    | right; split; [apply Hkw | apply (names_wheap_indep s1 s2 l _ _ eq_refl N2)]
+    | simpl; unfold wl; lia | exact H11 | exact H12 ]).
+  set (s2 := set_wheap s1 (hset wl (dset 1 z (hget wl (wheap s1))) (wheap s1))).
+  assert (Hr : refresh s2 e1 = e1') by (apply refresh_get; exact A1). rewrite Hr.
+  apply (em_edit_inv s2 w u1 u2 e1' e2 (read s2 l) KW (VRef wl)).
+  - rewrite <- W1, <- U1. exact A1.
+  - exact G2'.
+  - exact H3.
+  - exact H4.
+  - exact H5.
+  - exact H6.
+  - reflexivity.
+  - intros l' El. inversion El; subst l'. exact A3.
+  - apply (names_wheap_indep s1 s2 l _ _ eq_refl N1).
+  - apply Hkw.
+  - right. split; [apply Hkw | apply (names_wheap_indep s1 s2 l _ _ eq_refl N2)].
+  - simpl. destruct A3 as [_ Hb]. apply (Hb KW wl). apply dget_in. exact Ew.
+  - exact H11.
+  - exact H12.
+Qed.
+
+Definition reopen (s : st) : st := set_ents s (map (fun e => with_cache (with_md e None) None) (ents s)).
+
+Lemma get_ent_map (f : ent -> ent) w u l :
+  (forall e, wsp (f e) = wsp e /\ uid (f e) = uid e) -> get_ent w u (map f l) = option_map f (get_ent w u l).
+Proof.
+  intros Hf. induction l as [|x r IH]; simpl; [reflexivity|].
+  assert (E : same_ent w u (f x) = same_ent w u x) by (unfold same_ent; destruct (Hf x) as [A B]; rewrite A, B; reflexivity).
+  rewrite E. destruct (same_ent w u x); [reflexivity | exact IH].
+Qed.
+
+Lemma reopen_inv s w u1 u2 : inv s w u1 u2 -> inv (reopen s) w u1 u2.
+Proof.
+  intros (e1 & e2 & fd & H1 & H2 & H3 & H4 & H5 & H6 & H7 & H8 & H9 & H10 & H11 & H12 & H13 & H14).
+  set (f := fun e => with_cache (with_md e None) None).
+  exists (f e1), (f e2), fd. unfold reopen. simpl ents.
+  rewrite !(get_ent_map f) by (intros e; split; reflexivity). rewrite H1, H2.
+  repeat split; try assumption; try reflexivity; try (left; reflexivity).
+Qed.
+
+(* ------------------------------------------------------------------ all sequences of operations from either side *)
+Inductive pop := PLink (first : bool) | PEdit (first : bool) (k : nat) (z : Z) | PWave (first : bool) (z : Z) | PReopen.
+
+(* scalar edits address survey parameters, not the two link keys *)
+Definition pop_ok (o : pop) : Prop := match o with PEdit _ k _ => k <> KA /\ k <> KB | _ => True end.
+
+(* the operation on the pair (u1, u2) of workspace w, through the same functions the history interpreter [step] calls *)
+Definition pstep (w : bool) (u1 u2 : N) (s : st) (o : pop) : st :=
+  match get_ent w u1 (ents s), get_ent w u2 (ents s) with
+  | Some e1, Some e2 =>
+      match o with
+      | PLink true => em_link s e1 e2
+      | PLink false => em_link s e2 e1
+      | PEdit true k z => em_edit s e1 k (VZ z)
+      | PEdit false k z => em_edit s e2 k (VZ z)
+      | PWave true z => em_wave s e1 z
+      | PWave false z => em_wave s e2 z
+      | PReopen => reopen s
+      end
+  | _, _ => s
+  end.
+
+Lemma pstep_inv w u1 u2 s o : inv s w u1 u2 -> pop_ok o -> inv (pstep w u1 u2 s o) w u1 u2.
+Proof.
+  intros Hinv Hok. unfold pstep.
+  destruct (get_ent w u1 (ents s)) as [e1|] eqn:G1; [|exact Hinv].
+  destruct (get_ent w u2 (ents s)) as [e2|] eqn:G2; [|exact Hinv].
+  destruct o as [[|]|[|] k z|[|] z|].
+  - apply link_first_inv; assumption.
+  - apply inv_sym. apply link_first_inv; [apply inv_sym; exact Hinv | assumption | assumption].
+  - destruct Hok as [Ha Hb]. apply edit_first_inv; assumption.
+  - destruct Hok as [Ha Hb]. apply inv_sym. apply edit_first_inv; [apply inv_sym; exact Hinv | assumption | assumption | assumption].
+  - apply wave_first_inv; assumption.
+  - apply inv_sym. apply wave_first_inv; [apply inv_sym; exact Hinv | assumption].
+  - apply reopen_inv. exact Hinv.
+Qed.
+
+Theorem edit_shared w u1 u2 : forall l s,
+  inv s w u1 u2 -> Forall pop_ok l -> inv (fold_left (pstep w u1 u2) l s) w u1 u2.
+Proof.
+  induction l as [|o r IH]; intros s Hinv Hok; simpl; [exact Hinv|].
+  inversion Hok; subst. apply IH; [apply pstep_inv; assumption | assumption].
+Qed.
+
+(* what the invariant says in terms of the getters: both sides read the same metadata, it is what the file holds, and it
+   names both entities *)
+Theorem inv_reads s w u1 u2 :
+  inv s w u1 u2 ->
+  exists e1 e2 fd,
+    get_ent w u1 (ents s) = Some e1 /\ get_ent w u2 (ents s) = Some e2
+    /\ sees s e1 = Some fd /\ sees s e2 = Some fd
+    /\ fget w u1 (file s) = Some fd /\ fget w u2 (file s) = Some fd
+    /\ dget (key_of (rol e1)) fd = Some (FU u1) /\ dget (key_of (rol e2)) fd = Some (FU u2) /\ rol e2 = other (rol e1).
+Proof.
+  intros (e1 & e2 & fd & H1 & H2 & H3 & H4 & H5 & H6 & H7 & H8 & H9 & H10 & H11 & H12 & H13 & H14).
+  destruct (get_ent_some _ _ _ _ H1) as [W1 U1]. destruct (get_ent_some _ _ _ _ H2) as [W2 U2].
+  exists e1, e2, fd. repeat split; try assumption.
+  - unfold sees. unfold live_ok in H11. destruct (md e1) as [l0|]; [destruct H11 as [R _]; rewrite R; reflexivity | rewrite W1, U1; exact H7].
+  - unfold sees. unfold live_ok in H12. destruct (md e2) as [l0|]; [destruct H12 as [R _]; rewrite R; reflexivity | rewrite W2, U2; exact H8].
+Qed.
+
+(* ------------------------------------------------------------------ partner getters *)
+Lemma partner_inv s w u1 u2 e1 :
+  inv s w u1 u2 -> get_ent w u1 (ents s) = Some e1 ->
+  exists p s1, partner s e1 = (Some p, s1) /\ uid p = u2 /\ wsp p = w /\ inv s1 w u1 u2
+    /\ get_ent w u2 (ents s) = Some p /\ file s1 = file s /\ (next s <= next s1)%N
+    /\ (forall w0 u0, (w0 <> w \/ u0 <> u1) -> get_ent w0 u0 (ents s1) = get_ent w0 u0 (ents s))
+    /\ (forall l0, ptr_ok s l0 -> read s1 l0 = read s l0 /\ ptr_ok s1 l0)
+    /\ (forall l0, ptr_ok s l0 -> hget l0 (heap s1) = hget l0 (heap s)).
+Proof.
+  intros Hinv G1. destruct (inv_sees _ _ _ _ Hinv) as (e1' & e2 & fd & H1 & H2 & H3 & H4 & H5 & H6 & H7 & H8 & H9 & H10 & H11 & H12).
+  assert (e1' = e1) by congruence. subst e1'.
+  destruct (get_ent_some _ _ _ _ H1) as [W1 U1]. destruct (get_ent_some _ _ _ _ H2) as [W2 U2].
+  unfold partner. rewrite H5. destruct (em_md s e1) as [l s1] eqn:Em.
+  assert (G1s : get_ent (wsp e1) (uid e1) (ents s) = Some e1) by (rewrite W1, U1; exact H1).
+  destruct (em_md_spec s e1 fd G1s H7 H8 l s1 Em) as (A1 & A2 & A3 & A4 & A5 & A6 & A7 & A8 & A9).
+  set (e1' := with_md e1 (Some l)) in *.
+  assert (Hr : refresh s1 e1 = e1') by (apply refresh_get; exact A1). rewrite Hr.
+  assert (G2' : get_ent w u2 (ents s1) = Some e2) by (rewrite A4; [exact H2 | right; rewrite U1; exact H3]).
+  assert (Hres : resolve s1 e1' l (key_of (other (rol e1))) = Some e2).
+  { unfold resolve. simpl rol. destruct (Nat.eqb (key_of (other (rol e1))) (key_of (rol e1))) eqn:Ek.
+    - apply Nat.eqb_eq in Ek. exfalso. apply (key_other (rol e1)). exact Ek.
+    - simpl cache. simpl wsp. rewrite W1. destruct H11 as [Hc|Hc]; rewrite Hc.
+      + rewrite <- H4. assert (Hn : dget (key_of (rol e2)) (read s1 l) = Some (FU u2)) by (rewrite A2; exact H10).
+        rewrite (read_names s1 l _ _ Hn). exact G2'.
+      + exact G2'. }
+  rewrite Hres.
+  (* the invariant in the state after the getter *)
+  assert (Hinv1 : forall ents', get_ent w u1 ents' = Some (if cache e1' then e1' else with_cache e1' (Some (uid e2))) ->
+                   get_ent w u2 ents' = Some e2 -> inv (set_ents s1 ents') w u1 u2).
+  { intros ents' Ga Gb. destruct Hinv as (x1 & x2 & fd' & I1 & I2 & I3 & I4 & I5 & I6 & I7 & I8 & I9 & I10 & I11 & I12 & I13 & I14).
+    assert (x1 = e1) by congruence. assert (x2 = e2) by congruence. subst x1 x2.
+    assert (fd' = fd).
+    { unfold sees in H7. unfold live_ok in I11. destruct (md e1) as [l0|]; [destruct I11 as [R _]; congruence | rewrite W1, U1 in H7; congruence]. }
+    subst fd'.
+    exists (if cache e1' then e1' else with_cache e1' (Some (uid e2))), e2, fd.
+    split; [exact Ga|]. split; [exact Gb|]. split; [exact I3|].
+    split; [destruct (cache e1'); exact I4|]. split; [destruct (cache e1'); exact I5|]. split; [exact I6|].
+    split; [simpl; rewrite A5; exact I7|]. split; [simpl; rewrite A5; exact I8|].
+    split; [destruct (cache e1'); exact I9|]. split; [exact I10|].
+    split; [unfold live_ok; destruct (cache e1'); simpl; (split; [exact A2 | exact A3])|].
+    split; [unfold live_ok in *; destruct (md e2) as [l2|]; [|exact I]; destruct I12 as [R P]; destruct (A7 l2 P) as [R' P']; split; [change (read s1 l2 = fd); rewrite R'; exact R | exact P']|].
+    split; [|exact I14]. assert (Ece : cache e1' = cache e1) by reflexivity. rewrite Ece.
+    destruct I13 as [K|K]; rewrite K; right; [simpl; rewrite U2; reflexivity | exact K]. }
+  assert (Hfr : forall w0 u0, (w0 <> w \/ u0 <> u1) -> get_ent w0 u0 (ents s1) = get_ent w0 u0 (ents s)).
+  { intros w0 u0 Hne0. apply A4. rewrite W1, U1. destruct Hne0 as [H|H]; [left; intros E; apply H; symmetry; exact E | right; intros E; apply H; symmetry; exact E]. }
+  exists e2. destruct (cache e1') eqn:Ec.
+  - exists s1. split; [reflexivity|]. split; [exact U2|]. split; [exact W2|]. split.
+    { assert (Es : s1 = set_ents s1 (ents s1)) by (destruct s1; reflexivity). rewrite Es. apply Hinv1; [rewrite <- W1, <- U1; exact A1 | exact G2']. }
+    split; [exact H2|]. split; [exact A5|]. split; [exact A6|]. split; [exact Hfr|]. split; [exact A7 | exact A8].
+  - eexists. split; [reflexivity|]. split; [exact U2|]. split; [exact W2|]. split.
+    { apply Hinv1.
+      + rewrite <- W1, <- U1. apply (get_put_same (with_cache e1' (Some (uid e2)))).
+      + rewrite (get_put_other (with_cache e1' (Some (uid e2)))); [exact G2'|]. right. simpl. rewrite U1. exact H3. }
+    split; [exact H2|]. split; [exact A5|]. split; [exact A6|]. split; [|split; [exact A7 | exact A8]].
+    intros w0 u0 Hne0. simpl. rewrite (get_put_other (with_cache e1' (Some (uid e2)))).
+    + apply Hfr. exact Hne0.
+    + simpl. rewrite W1, U1. destruct Hne0 as [H|H]; [left; intros E; apply H; symmetry; exact E | right; intros E; apply H; symmetry; exact E].
+Qed.
+
+Theorem reopen_resolves s w u1 u2 e1 e2 :
+  inv s w u1 u2 -> get_ent w u1 (ents (reopen s)) = Some e1 -> get_ent w u2 (ents (reopen s)) = Some e2 ->
+  (exists p s1, partner (reopen s) e1 = (Some p, s1) /\ uid p = u2 /\ wsp p = w)
+  /\ (exists p s1, partner (reopen s) e2 = (Some p, s1) /\ uid p = u1 /\ wsp p = w).
+Proof.
+  intros Hinv G1 G2. pose proof (reopen_inv _ _ _ _ Hinv) as Hr. split.
+  - destruct (partner_inv _ _ _ _ _ Hr G1) as (p & s1 & Hp & Hu & Hw & _). exists p, s1. split; [exact Hp | split; assumption].
+  - destruct (partner_inv _ _ _ _ _ (inv_sym _ _ _ _ Hr) G2) as (p & s1 & Hp & Hu & Hw & _). exists p, s1. split; [exact Hp | split; assumption].
+Qed.
+
+(* ------------------------------------------------------------------ frames *)
+Lemma inv_frame s s' w u1 u2 :
+  inv s w u1 u2 ->
+  get_ent w u1 (ents s') = get_ent w u1 (ents s) -> get_ent w u2 (ents s') = get_ent w u2 (ents s) ->
+  fget w u1 (file s') = fget w u1 (file s) -> fget w u2 (file s') = fget w u2 (file s) ->
+  (forall l0, ptr_ok s l0 -> (forall e, (get_ent w u1 (ents s) = Some e \/ get_ent w u2 (ents s) = Some e) -> md e = Some l0 -> True) ->
+     (exists e, (get_ent w u1 (ents s) = Some e \/ get_ent w u2 (ents s) = Some e) /\ md e = Some l0) ->
+     read s' l0 = read s l0 /\ ptr_ok s' l0) ->
+  inv s' w u1 u2.
+Proof.
+  intros (e1 & e2 & fd & H1 & H2 & H3 & H4 & H5 & H6 & H7 & H8 & H9 & H10 & H11 & H12 & H13 & H14) G1 G2 F1 F2 Hfr.
+  exists e1, e2, fd. rewrite G1, G2, F1, F2.
+  split; [exact H1|]. split; [exact H2|]. split; [exact H3|]. split; [exact H4|]. split; [exact H5|]. split; [exact H6|].
+  split; [exact H7|]. split; [exact H8|]. split; [exact H9|]. split; [exact H10|].
+  assert (Hl : forall e, (get_ent w u1 (ents s) = Some e \/ get_ent w u2 (ents s) = Some e) -> live_ok s e fd -> live_ok s' e fd).
+  { intros e He Hlive. unfold live_ok in *. destruct (md e) as [l0|] eqn:Em; [|exact I]. destruct Hlive as [R P].
+    destruct (Hfr l0 P (fun _ _ _ => I) (ex_intro _ e (conj He Em))) as [R' P']. split; [rewrite R'; exact R | exact P']. }
+  split; [apply Hl; [left; exact H1 | exact H11]|]. split; [apply Hl; [right; exact H2 | exact H12]|].
+  split; assumption.
+Qed.
+
+(* well-formed states: uids are below the allocation counter, stored metadata belongs to existing entities *)
+Definition wf (s : st) : Prop :=
+  (forall w u e, get_ent w u (ents s) = Some e -> (u < next s)%N)
+  /\ (forall w u, get_ent w u (ents s) = None -> fget w u (file s) = None).
+
+(* ------------------------------------------------------------------ an entity without resolvable partner *)
+(* c holds the dict lc, which names c under its own key and nobody under the other key; no cached partner *)
+Definition alone (s : st) (c : ent) (lc : N) : Prop :=
+  get_ent (wsp c) (uid c) (ents s) = Some c /\ md c = Some lc /\ cache c = None /\ is_dc (fam c) = false
+  /\ ptr_ok s lc
+  /\ dget (key_of (rol c)) (hget lc (heap s)) = Some (VU (uid c))
+  /\ dget (key_of (other (rol c))) (hget lc (heap s)) = None.
+
+Lemma em_assign_alone s c lc :
+  alone s c lc -> em_assign s c lc = store s c lc.
+Proof.
+  intros (G & M & C & F & P & K1 & K2). unfold em_assign. cbv zeta.
+  assert (Ec : with_md c (Some lc) = c) by (destruct c; simpl in *; subst; reflexivity).
+  rewrite Ec.
+  assert (Hput : put_ent c (ents s) = ents s).
+  { clear -G. revert G. generalize (ents s). induction l as [|x r IH]; simpl; [discriminate|].
+    destruct (same_ent (wsp c) (uid c) x) eqn:E; [intros H; inversion H; reflexivity | intros H; f_equal; apply IH; exact H]. }
+  rewrite Hput. assert (Es : set_ents s (ents s) = s) by (destruct s; reflexivity). rewrite Es.
+  unfold resolve. destruct (Nat.eqb (key_of (other (rol c))) (key_of (rol c))) eqn:Ek.
+  - apply Nat.eqb_eq in Ek. exfalso. apply (key_other (rol c)). exact Ek.
+  - rewrite C. simpl heap. rewrite K2. reflexivity.
+Qed.
+
+Lemma dget_expand_none h k d : dget k d = None -> dget k (expand h d) = None.
+Proof. intros H. rewrite expand_dget, H. reflexivity. Qed.
+
+(* an edit of a non-link key on such an entity: it stays alone; only its own dict, record and stored copy move *)
+Lemma em_edit_alone s c lc k v :
+  alone s c lc -> k <> KA -> k <> KB -> val_ok s v ->
+  let s' := em_edit s c k v in
+  alone s' c lc /\ next s' = next s /\ wheap s' = wheap s /\ ents s' = ents s
+  /\ heap s' = hset lc (dset k v (hget lc (heap s))) (heap s)
+  /\ file s' = fput (wsp c) (uid c) (read s' lc) (file s).
+Proof.
+  intros Ha Hka Hkb Hv. pose proof Ha as (G & M & C & F & P & K1 & K2).
+  assert (Hk : forall r, k <> key_of r) by (intros [|]; assumption).
+  unfold em_edit. cbv zeta. unfold em_md. rewrite M.
+  set (s2 := set_heap s (hset lc (dset k v (hget lc (heap s))) (heap s))).
+  assert (Hr : refresh s2 c = c) by (apply refresh_get; exact G). rewrite Hr.
+  assert (Ha2 : alone s2 c lc).
+  { split; [exact G|]. split; [exact M|]. split; [exact C|]. split; [exact F|].
+    split; [|split].
+    - destruct P as [Pl Pr]. split; [exact Pl|]. unfold s2. simpl. rewrite hget_hset_same. intros k0 wl Hin.
+      apply dset_in in Hin. destruct Hin as [[_ Ev]|Hin]; [subst v; exact Hv | apply (Pr k0 wl Hin)].
+    - unfold s2. simpl. rewrite hget_hset_same, dget_dset_other by (intros E; apply (Hk (rol c)); symmetry; exact E). exact K1.
+    - unfold s2. simpl. rewrite hget_hset_same, dget_dset_other by (intros E; apply (Hk (other (rol c))); symmetry; exact E). exact K2. }
+  rewrite (em_assign_alone s2 c lc Ha2). unfold store.
+  split; [|repeat split].
+  destruct Ha2 as (G2 & M2 & C2 & F2 & P2 & K12 & K22).
+  split; [exact G2|]. split; [exact M2|]. split; [exact C2|]. split; [exact F2|]. split; [exact P2|]. split; [exact K12 | exact K22].
+Qed.
+
+Lemma em_assign_noresolve s c l :
+  cache c = None -> dget (key_of (other (rol c))) (hget l (heap s)) = None ->
+  em_assign s c l = store (set_ents s (put_ent (with_md c (Some l)) (ents s))) (with_md c (Some l)) l.
+Proof.
+  intros C K. unfold em_assign. cbv zeta. unfold resolve. simpl rol.
+  destruct (Nat.eqb (key_of (other (rol c))) (key_of (rol c))) eqn:Ek.
+  - apply Nat.eqb_eq in Ek. exfalso. apply (key_other (rol c)). exact Ek.
+  - simpl cache. rewrite C. unfold store at 1. simpl heap. rewrite K. reflexivity.
+Qed.
+
+Lemma get_app_none w u l e : get_ent w u l = None -> get_ent w u (l ++ [e]) = if same_ent w u e then Some e else None.
+Proof.
+  induction l as [|x r IH]; simpl; [reflexivity|]. destruct (same_ent w u x); [discriminate | exact IH].
+Qed.
+
+Lemma get_app_some w u l e x : get_ent w u l = Some x -> get_ent w u (l ++ [e]) = Some x.
+Proof.
+  induction l as [|y r IH]; simpl; [discriminate|]. destruct (same_ent w u y); [intros H; exact H | exact IH].
+Qed.
+
+Lemma get_app_other w u l e : (wsp e <> w \/ uid e <> u) -> get_ent w u (l ++ [e]) = get_ent w u l.
+Proof.
+  intros Hne. destruct (get_ent w u l) as [x|] eqn:G; [apply (get_app_some _ _ _ _ _ G)|].
+  rewrite (get_app_none _ _ _ _ G). destruct (same_ent w u e) eqn:E; [|reflexivity].
+  apply same_ent_spec in E. destruct E, Hne; contradiction.
+Qed.
+
+Lemma default_md_spec e s d s1 :
+  default_md e s = (d, s1) ->
+  ents s1 = ents s /\ heap s1 = heap s /\ file s1 = file s /\ (next s <= next s1)%N
+  /\ dget (key_of (rol e)) d = Some (VU (uid e)) /\ dget (key_of (other (rol e))) d = None
+  /\ refs_below (next s1) d
+  /\ (forall wl, (wl < next s)%N -> hget wl (wheap s1) = hget wl (wheap s)).
+Proof.
+  unfold default_md. destruct (is_tem (fam e)); intros E.
+  - destruct (rol e) eqn:Er; simpl in E; injection E as Ed Es; subst d s1; simpl.
+    + repeat split; try reflexivity; try lia.
+      * intros k wl [Hin|[Hin|[]]]; inversion Hin; subst; lia.
+      * intros wl Hwl. apply hget_hset_other. lia.
+    + repeat split; try reflexivity; try lia.
+      * intros k wl [Hin|[Hin|[]]]; inversion Hin; subst; lia.
+      * intros wl Hwl. apply hget_hset_other. lia.
+  - injection E as Ed Es; subst d s1.
+    split; [reflexivity|]. split; [reflexivity|]. split; [reflexivity|]. split; [lia|].
+    split; [simpl; rewrite Nat.eqb_refl; reflexivity|]. split; [simpl; destruct (rol e); reflexivity|].
+    split; [intros k wl [Hin|[]]; inversion Hin | intros; reflexivity].
+Qed.
+
+Lemma spawn_spec s e tw n c s2 :
+  wf s -> is_dc (fam e) = false -> (uid e < next s)%N -> spawn s e tw n = (c, s2) ->
+  exists lc, alone s2 c lc /\ wsp c = tw /\ rol c = rol e /\ fam c = fam e
+    /\ get_ent tw (uid c) (ents s) = None
+    /\ (next s <= next s2)%N /\ (next s <= lc)%N
+    /\ (forall w0 u0, (w0 <> tw \/ u0 <> uid c) -> get_ent w0 u0 (ents s2) = get_ent w0 u0 (ents s)
+                                                  /\ fget w0 u0 (file s2) = fget w0 u0 (file s))
+    /\ (forall l0, ptr_ok s l0 -> read s2 l0 = read s l0 /\ ptr_ok s2 l0)
+    /\ (uid c < next s2)%N
+    /\ (forall l0, ptr_ok s l0 -> hget l0 (heap s2) = hget l0 (heap s)).
+Proof.
+  intros [Wf1 Wf2] Hdc Hue E. unfold spawn in E.
+  destruct (new_ent s e tw n) as [c0 s1] eqn:En.
+  assert (Hc0 : wsp c0 = tw /\ rol c0 = rol e /\ fam c0 = fam e /\ md c0 = None /\ cache c0 = None
+                /\ get_ent tw (uid c0) (ents s) = None /\ ents s1 = ents s /\ heap s1 = heap s /\ wheap s1 = wheap s
+                /\ file s1 = file s /\ (next s <= next s1)%N /\ (uid c0 < next s1)%N).
+  { unfold new_ent in En. destruct (get_ent tw (uid e) (ents s)) as [x|] eqn:G; inversion En; subst; simpl.
+    - repeat split; try reflexivity; try lia.
+      destruct (get_ent tw (next s) (ents s)) as [y|] eqn:Gy; [|reflexivity]. apply Wf1 in Gy. lia.
+    - repeat split; try reflexivity; try lia; try assumption. }
+  destruct Hc0 as (C1 & C2 & C3 & C4 & C5 & C6 & C7 & C8 & C9 & C10 & C11 & C12).
+  set (s1a := add_ent s1 c0) in *.
+  assert (Gc0 : get_ent tw (uid c0) (ents s1a) = Some c0).
+  { unfold s1a, add_ent. simpl. rewrite get_app_none by (rewrite C7; exact C6).
+    assert (Hs : same_ent tw (uid c0) c0 = true) by (apply same_ent_spec; split; [exact C1 | reflexivity]). rewrite Hs. reflexivity. }
+  unfold em_md in E. rewrite C4 in E.
+  assert (Hnf : fget (wsp c0) (uid c0) (file s1a) = None).
+  { unfold s1a, add_ent. simpl. rewrite C10, C1. apply Wf2. exact C6. }
+  rewrite Hnf in E. destruct (default_md c0 s1a) as [d s3] eqn:Ed.
+  destruct (default_md_spec _ _ _ _ Ed) as (D1 & D2 & D3 & D4 & D5 & D6 & D7 & D8).
+  set (l := next s3) in *.
+  set (s4 := bump (set_heap s3 (hset l d (heap s3)))) in *.
+  assert (Hk2 : dget (key_of (other (rol c0))) (hget l (heap s4)) = None).
+  { unfold s4. simpl. rewrite hget_hset_same. exact D6. }
+  rewrite (em_assign_noresolve s4 c0 l C5 Hk2) in E. inversion E; subst c s2; clear E.
+  set (c := with_md c0 (Some l)).
+  exists l.
+  assert (Hents : ents s4 = ents s1 ++ [c0]) by (unfold s4; simpl; rewrite D1; reflexivity).
+  assert (Gc : get_ent tw (uid c0) (put_ent c (ents s4)) = Some c).
+  { rewrite <- C1. apply (get_put_same c). }
+  split; [|split; [exact C1 | split; [exact C2 | split; [exact C3 | split; [exact C6 | split; [|split; [|split; [|split; [|split]]]]]]]]].
+  - split; [simpl; rewrite C1; exact Gc|]. split; [reflexivity|]. split; [exact C5|]. split; [change (is_dc (fam c0) = false); rewrite C3; exact Hdc|].
+    split; [|split].
+    + split; [simpl; unfold l; lia|]. simpl. rewrite hget_hset_same. intros k wl Hin. apply D7 in Hin. lia.
+    + simpl. rewrite hget_hset_same. exact D5.
+    + simpl. rewrite hget_hset_same. exact D6.
+  - simpl. unfold s1a, add_ent in D4. simpl in D4. lia.
+  - unfold l. unfold s1a, add_ent in D4. simpl in D4. lia.
+  - intros w0 u0 Hne. split.
+    + change (get_ent w0 u0 (put_ent c (ents s4)) = get_ent w0 u0 (ents s)).
+      rewrite (get_put_other c) by (simpl; rewrite C1; destruct Hne as [H|H]; [left; intros E; apply H; symmetry; exact E | right; intros E; apply H; symmetry; exact E]).
+      rewrite Hents, C7. apply get_app_other. rewrite C1. destruct Hne as [H|H]; [left; intros E; apply H; symmetry; exact E | right; intros E; apply H; symmetry; exact E].
+    + simpl. rewrite C1. rewrite fget_fput_other by exact Hne. rewrite D3. unfold s1a, add_ent. simpl. rewrite C10. reflexivity.
+  - intros l0 [Hl0 Hr0]. assert (Hl0l : l0 <> l) by (unfold l; unfold s1a, add_ent in D4; simpl in D4; lia).
+    split.
+    + unfold read. simpl. rewrite hget_hset_other by exact Hl0l. rewrite D2. unfold s1a, add_ent. simpl. rewrite C8.
+      apply expand_ext. intros k wl Hin. rewrite D8; [unfold s1a, add_ent; simpl; rewrite C9; reflexivity|].
+      unfold s1a, add_ent. simpl. apply Hr0 in Hin. lia.
+    + split; [simpl; unfold s1a, add_ent in D4; simpl in D4; lia|]. simpl. rewrite hget_hset_other by exact Hl0l.
+      rewrite D2. unfold s1a, add_ent. simpl. rewrite C8. intros k wl Hin. apply Hr0 in Hin. unfold s1a, add_ent in D4; simpl in D4. lia.
+  - simpl. unfold s1a, add_ent in D4. simpl in D4. lia.
+  - intros l0 [Hl0 Hr0]. assert (Hl0l : l0 <> l) by (unfold l; unfold s1a, add_ent in D4; simpl in D4; lia).
+    simpl. rewrite hget_hset_other by exact Hl0l. rewrite D2. unfold s1a, add_ent. simpl. rewrite C8. reflexivity.
+Qed.
+
+Definition scalar (v : val) : Prop := match v with VZ _ | VRef _ => True | _ => False end.
+
+Lemma replay_alone : forall d s c lc,
+  alone s c lc ->
+  (forall k v, In (k, v) d -> scalar v -> k <> KA /\ k <> KB /\ val_ok s v) ->
+  let s' := replay s (wsp c) (uid c) d in
+  alone s' c lc /\ next s' = next s /\ wheap s' = wheap s /\ ents s' = ents s
+  /\ (forall l0, l0 <> lc -> hget l0 (heap s') = hget l0 (heap s))
+  /\ (forall w0 u0, (w0 <> wsp c \/ u0 <> uid c) -> fget w0 u0 (file s') = fget w0 u0 (file s)).
+Proof.
+  induction d as [|[k v] r IH]; intros s c lc Ha Hd; simpl.
+  - split; [exact Ha|]. repeat split; intros; reflexivity.
+  - pose proof Ha as (G & _). rewrite G.
+    assert (Hstep : forall s1, (s1 = s \/ (scalar v /\ s1 = em_edit s c k v)) ->
+              alone s1 c lc /\ next s1 = next s /\ wheap s1 = wheap s /\ ents s1 = ents s
+              /\ (forall l0, l0 <> lc -> hget l0 (heap s1) = hget l0 (heap s))
+              /\ (forall w0 u0, (w0 <> wsp c \/ u0 <> uid c) -> fget w0 u0 (file s1) = fget w0 u0 (file s))).
+    { intros s1 [E|[Hs E]]; subst s1.
+      - split; [exact Ha|]. repeat split; intros; reflexivity.
+      - destruct (Hd k v (or_introl eq_refl) Hs) as (Ka & Kb & Kv).
+        destruct (em_edit_alone s c lc k v Ha Ka Kb Kv) as (B1 & B2 & B3 & B4 & B5 & B6).
+        split; [exact B1|]. split; [exact B2|]. split; [exact B3|]. split; [exact B4|]. split.
+        + intros l0 Hl0. rewrite B5. apply hget_hset_other. exact Hl0.
+        + intros w0 u0 Hne. rewrite B6. apply fget_fput_other. exact Hne. }
+    assert (Hs1 : exists s1, (s1 = s \/ (scalar v /\ s1 = em_edit s c k v))
+                    /\ match v with VZ _ | VRef _ => em_edit s c k v | _ => s end = s1).
+    { destruct v; eexists; (split; [|reflexivity]); try (left; reflexivity); right; split; try exact I; reflexivity. }
+    destruct Hs1 as (s1 & Hs1 & Es1).
+    replace (match v with VU _ => s | VZ _ => em_edit s c k v | VRef _ => em_edit s c k v | VOwn => s end) with s1
+      by (rewrite <- Es1; destruct v; reflexivity).
+    destruct (Hstep s1 Hs1) as (C1 & C2 & C3 & C4 & C5 & C6).
+    destruct (IH s1 c lc C1) as (D1 & D2 & D3 & D4 & D5 & D6).
+    { intros k0 v0 Hin Hsc. destruct (Hd k0 v0 (or_intror Hin) Hsc) as (X1 & X2 & X3). repeat split; try assumption.
+      destruct v0; simpl in *; try exact I. rewrite C2. exact X3. }
+    split; [exact D1|]. split; [congruence|]. split; [congruence|]. split; [congruence|]. split.
+    + intros l0 Hl0. rewrite D5 by exact Hl0. apply C5. exact Hl0.
+    + intros w0 u0 Hne. rewrite D6 by exact Hne. apply C6. exact Hne.
+Qed.
+
+(* ------------------------------------------------------------------ well-formedness across steps *)
+Lemma key_dec (a b : bool * N) : {a = b} + {a <> b}.
+Proof. decide equality; [apply N.eq_dec | apply Bool.bool_dec]. Qed.
+
+Lemma wf_preserve s s' (K : list (bool * N)) :
+  wf s -> (next s <= next s')%N ->
+  (forall w u, ~ In (w, u) K -> get_ent w u (ents s') = get_ent w u (ents s) /\ fget w u (file s') = fget w u (file s)) ->
+  (forall w u, In (w, u) K -> (exists e, get_ent w u (ents s') = Some e) /\ (u < next s')%N) ->
+  wf s'.
+Proof.
+  intros [W1 W2] Hn Hout Hin. split.
+  - intros w u e G. destruct (in_dec key_dec (w, u) K) as [Hk|Hk].
+    + apply (Hin w u Hk).
+    + destruct (Hout w u Hk) as [Ge _]. rewrite Ge in G. apply W1 in G. lia.
+  - intros w u G. destruct (in_dec key_dec (w, u) K) as [Hk|Hk].
+    + destruct (Hin w u Hk) as [[e Ge] _]. congruence.
+    + destruct (Hout w u Hk) as [Ge Fe]. rewrite Fe. apply W2. rewrite <- Ge. exact G.
+Qed.
+
+(* the getter of one member of a pair preserves the invariant *)
+Lemma em_md_inv s w u1 u2 e1 l s1 :
+  inv s w u1 u2 -> get_ent w u1 (ents s) = Some e1 -> em_md s e1 = (l, s1) ->
+  inv s1 w u1 u2 /\ get_ent w u1 (ents s1) = Some (with_md e1 (Some l))
+  /\ (forall w0 u0, (w0 <> w \/ u0 <> u1) -> get_ent w0 u0 (ents s1) = get_ent w0 u0 (ents s))
+  /\ file s1 = file s /\ (next s <= next s1)%N
+  /\ (forall l0, ptr_ok s l0 -> read s1 l0 = read s l0 /\ ptr_ok s1 l0)
+  /\ (forall l0, ptr_ok s l0 -> hget l0 (heap s1) = hget l0 (heap s))
+  /\ ptr_ok s1 l /\ (exists fd, read s1 l = fd /\ sees s e1 = Some fd)
+  /\ (md e1 = Some l \/ (next s <= l)%N).
+Proof.
+  intros Hinv G1 Em. destruct (inv_sees _ _ _ _ Hinv) as (e1' & e2 & fd & H1 & H2 & H3 & H4 & H5 & H6 & H7 & H8 & H9 & H10 & H11 & H12).
+  assert (e1' = e1) by congruence. subst e1'.
+  destruct (get_ent_some _ _ _ _ H1) as [W1 U1]. destruct (get_ent_some _ _ _ _ H2) as [W2 U2].
+  assert (G1s : get_ent (wsp e1) (uid e1) (ents s) = Some e1) by (rewrite W1, U1; exact H1).
+  destruct (em_md_spec s e1 fd G1s H7 H8 l s1 Em) as (A1 & A2 & A3 & A4 & A5 & A6 & A7 & A8 & A9).
+  set (e1' := with_md e1 (Some l)) in *.
+  assert (Hfr : forall w0 u0, (w0 <> w \/ u0 <> u1) -> get_ent w0 u0 (ents s1) = get_ent w0 u0 (ents s)).
+  { intros w0 u0 Hne0. apply A4. rewrite W1, U1. destruct Hne0 as [H|H]; [left; intros E; apply H; symmetry; exact E | right; intros E; apply H; symmetry; exact E]. }
+  assert (G2' : get_ent w u2 (ents s1) = Some e2) by (rewrite Hfr; [exact H2 | right; intros E; apply H3; symmetry; exact E]).
+  split; [|split; [rewrite <- W1, <- U1; exact A1 | split; [exact Hfr | split; [exact A5 | split; [exact A6 | split; [exact A7 | split; [exact A8 | split; [exact A3 | split; [exists fd; split; [exact A2 | exact H7] | exact A9]]]]]]]]].
+  destruct Hinv as (x1 & x2 & fd' & I1 & I2 & I3 & I4 & I5 & I6 & I7 & I8 & I9 & I10 & I11 & I12 & I13 & I14).
+  assert (x1 = e1) by congruence. assert (x2 = e2) by congruence. subst x1 x2.
+  assert (fd' = fd).
+  { unfold sees in H7. unfold live_ok in I11. destruct (md e1) as [l0|]; [destruct I11 as [R _]; congruence | rewrite W1, U1 in H7; congruence]. }
+  subst fd'.
+  exists e1', e2, fd.
+  split; [rewrite <- W1, <- U1; exact A1|]. split; [exact G2'|]. split; [exact I3|].
+  split; [exact I4|]. split; [exact I5|]. split; [exact I6|].
+  split; [rewrite A5; exact I7|]. split; [rewrite A5; exact I8|].
+  split; [exact I9|]. split; [exact I10|].
+  split; [unfold live_ok; simpl; split; [exact A2 | exact A3]|].
+  split; [unfold live_ok in *; destruct (md e2) as [l2|]; [|exact I]; destruct I12 as [R P]; destruct (A7 l2 P) as [R' P']; split; [rewrite R'; exact R | exact P']|].
+  split; [exact I13 | exact I14].
+Qed.
+
+(* an entity that is alone stays so when only other entities, other dict cells and other stored entries move *)
+Lemma alone_frame s s' c lc :
+  alone s c lc ->
+  get_ent (wsp c) (uid c) (ents s') = get_ent (wsp c) (uid c) (ents s) ->
+  hget lc (heap s') = hget lc (heap s) -> (next s <= next s')%N ->
+  alone s' c lc.
+Proof.
+  intros (G & M & C & F & [Pl Pr] & K1 & K2) Ge Hh Hn.
+  split; [rewrite Ge; exact G|]. split; [exact M|]. split; [exact C|]. split; [exact F|].
+  split; [split; [lia | rewrite Hh; intros k wl Hin; apply Pr in Hin; lia]|]. rewrite Hh. split; assumption.
+Qed.
+
+Lemma alone_sees s c lc : alone s c lc ->
+  sees s c = Some (read s lc) /\ (forall l, md c = Some l -> ptr_ok s l)
+  /\ dget (key_of (rol c)) (read s lc) = Some (FU (uid c)).
+Proof.
+  intros (G & M & C & F & P & K1 & K2). split; [unfold sees; rewrite M; reflexivity|].
+  split; [intros l E; rewrite M in E; inversion E; subst; exact P|].
+  unfold read. rewrite expand_dget, K1. reflexivity.
+Qed.
+
+Definition link_keys_hold_uids (fd : fdict) : Prop :=
+  forall k fv, In (k, fv) fd -> (k = KA \/ k = KB) -> exists u, fv = FU u.
+
+Lemma in_expand h k v d : In (k, v) d -> In (k, expand_val h v) (expand h d).
+Proof. intros H. unfold expand. apply (in_map (fun kv => (fst kv, expand_val h (snd kv))) d (k, v) H). Qed.
